@@ -2,22 +2,26 @@
 # Soak run: every property's quick check at several seeds (and optionally thorough once), from the
 # directory it is started in (works in a `vp run` snapshot: builds its own driver, writes evidence
 # and replays under the snapshot). Prints one line per run; a non-zero exit is shown in full.
-#   tools/soak.sh "<seeds>" [thorough]
+#   tools/soak.sh "<seeds>" [thorough [<seed of the thorough runs>]]
+# Exit status: 0 when every run returned 0, 1 otherwise.
 cd "$(dirname "$0")/.."
 export GOFLAGS=-mod=mod GOPROXY=off GOSUMDB=off GOTOOLCHAIN=local VERIF_DIR="$(pwd)"
 sh ./setup.sh >/dev/null 2>&1
 SEEDS="${1:-6 7 8 9 10}"
+TS="${3:-1}"
+bad=0
 for s in $SEEDS; do
   for id in C01 C02 C03 C04 C05 C06 C07 C08 C09 C10 C11 C12 C13 C14 C15 C16 C17 C18 C19 C20; do
     out=$(VERIF_SEED=$s bin/check $id --tier quick 2>&1); rc=$?
     echo "seed=$s $id rc=$rc $(echo "$out" | tail -1)"
-    [ $rc -ne 0 ] && echo "$out" | head -60
+    if [ $rc -ne 0 ]; then bad=1; echo "$out" | head -60; fi
   done
 done
 if [ "$2" = thorough ]; then
   for id in C01 C02 C03 C04 C05 C06 C07 C08 C09 C10 C11 C12 C13 C14 C15 C16 C17 C18 C19 C20; do
-    t0=$(date +%s); out=$(bin/check $id --tier thorough 2>&1); rc=$?; t1=$(date +%s)
+    t0=$(date +%s); out=$(VERIF_SEED=$TS bin/check $id --tier thorough 2>&1); rc=$?; t1=$(date +%s)
     echo "thorough $id rc=$rc $((t1-t0))s $(echo "$out" | grep -m1 'thorough seed')"
-    [ $rc -ne 0 ] && echo "$out" | head -80
+    if [ $rc -ne 0 ]; then bad=1; echo "$out" | head -80; fi
   done
 fi
+exit $bad
